@@ -1,6 +1,257 @@
+import Proofs.C13.Gf256Field
+import Proofs.C13.Shamir
+import Proofs.C13.Feistel
+import Proofs.C13.Rs1024
+import Proofs.C13.Bits
+import Proofs.C13.Codec
 /-!
-# C13 — property theorems only (see DESIGN.md §3 C13).
+# C13 — mnemonics and seeds: entropy round-trips, checksums bind, thresholds recover (DESIGN.md §3 C13)
+
+Property theorems only.  The definitions are those of `Model/C13/*.lean` (the same ones the driver runs against
+btclib), stated over the GENERATED tables and constants of `Generated/Slip39.lean`, `Generated/Mnemonic.lean`.
+Hashes / PRFs / round functions are parameters.
 -/
 namespace Props.C13
+open Btc Btc.C13
+
+/-! ## T2 — GF(256) -/
+
+/-- the generated `_EXP` / `_LOG` tables are mutually inverse: `_LOG[_EXP[i]] = i` for the 255 exponents,
+    `_EXP[_LOG[a]] = a` for the 255 non-zero bytes (and the entries are non-zero bytes / exponents) -/
+theorem gf256_tables_mutually_inverse :
+    (∀ i, i < 255 → expT i ≠ 0 ∧ expT i < 256 ∧ logT (expT i) = i) ∧
+    (∀ a, a < 256 → a ≠ 0 → logT a < 255 ∧ expT (logT a) = a) :=
+  ⟨fun _ h => exp_spec h, fun _ h h0 => log_spec h h0⟩
+
+/-- `slip39._mul` (table lookup) is the carry-less product modulo 0x11B, on all 65 536 pairs -/
+theorem gf256_mul_is_carryless (a b : Nat) (ha : a < 256) (hb : b < 256) : tmul a b = clmul a b :=
+  tmul_eq_clmul ha hb
+
+example : tmul 87 131 = 193 ∧ clmul 87 131 = 193 := by decide
+
+/-- field laws of `_mul` on bytes, with XOR as addition -/
+theorem gf256_field_laws (a b c : Nat) (ha : a < 256) (hb : b < 256) (hc : c < 256) :
+    tmul a b = tmul b a ∧ tmul (tmul a b) c = tmul a (tmul b c) ∧
+    tmul a (b ^^^ c) = tmul a b ^^^ tmul a c ∧ tmul 1 a = a ∧ tmul a b < 256 ∧
+    (a ≠ 0 → tmul a (tdiv 1 a) = 1) ∧ (a ≠ 0 → b ≠ 0 → tdiv a b = tmul a (tdiv 1 b)) :=
+  ⟨tmul_comm a b, tmul_assoc ha hb hc, tmul_xor ha hb hc, tmul_one_left ha, tmul_lt ha hb,
+   fun h => tmul_tdiv_one ha h, fun h h' => tdiv_eq_tmul ha h hb h'⟩
+
+/-- bytes with XOR, `_mul`, `_div` are a field (`instance : Field GF256`), and the operation record the driver
+    runs the Shamir model with computes in it (`_div` only ever divides non-zero by non-zero) -/
+theorem gf256_ops_lawful : FLawful gf256Ops := gf256Ops_lawful
+
+/-! ## T3 — Shamir -/
+
+/-- over ANY field: any `threshold` of the shares `_split_secret` produces, in any order, interpolate to the
+    secret at x = 255 and to the digest share at x = 254 -/
+theorem shamir_any_threshold_subset_interpolates {F : Type} [Field F] [DecidableEq F] {o : FOps F}
+    (L : FLawful o) {t n : Nat} (h2 : 2 ≤ t) (hx : XInj o)
+    {secret ds : List F} {rnd shares : List (List F)} (hlen : rnd.length = t - 2)
+    (hr : ∀ r ∈ rnd, r.length = secret.length) (hds : ds.length = secret.length)
+    (h : splitSecret o t n secret rnd ds = .ok shares)
+    (sel : List Nat) (hnd : sel.Nodup) (hsl : sel.length = t) (hsn : ∀ i ∈ sel, i < n) :
+    interpolate o (sel.map fun i => (o.x i, shares.getD i [])) (o.x Gen.Slip39.SECRET_X) = secret ∧
+    interpolate o (sel.map fun i => (o.x i, shares.getD i [])) (o.x Gen.Slip39.DIGEST_X) = ds :=
+  splitSecret_recovers L h2 hx hlen hr hds h sel hnd hsl hsn
+
+/-- … hence `_recover_secret` returns the secret (the digest check passes), over any field and any digest function -/
+theorem shamir_recover_split {F : Type} [Field F] [DecidableEq F] {o : FOps F}
+    (L : FLawful o) (digest : List F → List F → List F) {t n : Nat} (h2 : 2 ≤ t) (hx : XInj o)
+    {secret ds rp : List F} {rnd shares : List (List F)} (hlen : rnd.length = t - 2)
+    (hr : ∀ r ∈ rnd, r.length = secret.length) (hds : ds.length = secret.length)
+    (hdig : ds = digest rp secret ++ rp) (hdl : (digest rp secret).length = Gen.Slip39.DIGEST_BYTES)
+    (h : splitSecret o t n secret rnd ds = .ok shares)
+    (sel : List Nat) (hnd : sel.Nodup) (hsl : sel.length = t) (hsn : ∀ i ∈ sel, i < n) :
+    recoverSecret o digest t (sel.map fun i => (o.x i, shares.getD i [])) = .ok secret :=
+  recoverSecret_splitSecret L digest h2 hx hlen hr hds hdig hdl h sel hnd hsl hsn
+
+/-- the same for btclib's own arithmetic: the generated tables, XOR, `_mul`, `_div` -/
+theorem slip39_recover_split_gf256 (digest : List GF256 → List GF256 → List GF256) {t n : Nat} (h2 : 2 ≤ t)
+    {secret ds rp : List GF256} {rnd shares : List (List GF256)} (hlen : rnd.length = t - 2)
+    (hr : ∀ r ∈ rnd, r.length = secret.length) (hds : ds.length = secret.length)
+    (hdig : ds = digest rp secret ++ rp) (hdl : (digest rp secret).length = Gen.Slip39.DIGEST_BYTES)
+    (h : splitSecret gf256Ops t n secret rnd ds = .ok shares)
+    (sel : List Nat) (hnd : sel.Nodup) (hsl : sel.length = t) (hsn : ∀ i ∈ sel, i < n) :
+    recoverSecret gf256Ops digest t (sel.map fun i => (gf256Ops.x i, shares.getD i [])) = .ok secret :=
+  recoverSecret_splitSecret gf256Ops_lawful digest h2 gf256Ops_xinj hlen hr hds hdig hdl h sel hnd hsl hsn
+
+example : ∃ shares, splitSecret gf256Ops 3 5 ([5, 7, 1, 2, 3].map GF256.ofNat) [[1, 1, 1, 1, 1].map GF256.ofNat]
+    (([1, 2, 3, 4] ++ [9]).map GF256.ofNat) = .ok shares :=
+  splitSecret_isOk gf256Ops (by decide) (by decide) (by decide) _ _ _
+
+/-- the `threshold == 1` branch: every share is the secret -/
+theorem shamir_threshold_one {α : Type} [DecidableEq α] (o : FOps α) (digest : List α → List α → List α) {n : Nat}
+    {secret ds : List α} {rnd shares : List (List α)}
+    (h : splitSecret o 1 n secret rnd ds = .ok shares) (i : Nat) (hi : i < n) :
+    recoverSecret o digest 1 [(o.x i, shares.getD i [])] = .ok secret :=
+  recoverSecret_threshold_one o digest h i hi
+
+/-- the group logic refuses a group that does not hold EXACTLY its member threshold of shares (fewer, or more) -/
+theorem slip39_group_wrong_count_refused {α : Type} [DecidableEq α] (o : FOps α)
+    (digest : List α → List α → List α) (shares : List (Share α)) (g t : Nat)
+    (ht : ((shares.filter (·.groupIndex = g)).map (·.memberThreshold)).eraseDups = [t])
+    (hn : (shares.filter (·.groupIndex = g)).length ≠ t) :
+    ∃ e, recoverGroup o digest shares g = .error e := by
+  unfold recoverGroup
+  simp only [ht]
+  split_ifs
+  · exact ⟨_, rfl⟩
+  · exact ⟨_, rfl⟩
+
+/-- … and a set of shares whose number of groups differs from the group threshold -/
+theorem slip39_group_count_refused {α : Type} [DecidableEq α] (o : FOps α)
+    (digest : List α → List α → List α) (first : Share α) (rest : List (Share α)) (gs : List (α × List α))
+    (hg : grouped o digest (first :: rest) = .ok gs) (hn : gs.length ≠ first.groupThreshold) :
+    ∃ e, recoverEms o digest (first :: rest) = .error e := by
+  unfold recoverEms
+  simp only [hg]
+  split_ifs
+  · exact ⟨_, rfl⟩
+  · exact ⟨_, rfl⟩
+
+/-! ## T4 — Feistel -/
+
+/-- `decrypt (encrypt m) = m` for ANY round function: any passphrase, iteration exponent, identifier, flag -/
+theorem feistel_decrypt_encrypt (F : Nat → Bytes → Bytes) (hF : ∀ i r, (F i r).length = r.length)
+    (m : Bytes) (hm : m.length % 2 = 0) :
+    ∃ c, feistel F m false = some c ∧ c.length = m.length ∧ feistel F c true = some m :=
+  Btc.C13.feistel_decrypt_encrypt F hF m hm
+
+/-- decrypting under a WRONG round function (passphrase) never errors: it yields some payload of the same length -/
+theorem feistel_never_errors (F : Nat → Bytes → Bytes) (hF : ∀ i r, (F i r).length = r.length)
+    (m : Bytes) (hm : m.length % 2 = 0) (dec : Bool) : ∃ r, feistel F m dec = some r ∧ r.length = m.length :=
+  feistel_total F hF m hm dec
+
+example : (fun (i : Nat) (r : Bytes) => r.map (· + UInt8.ofNat i)) 3 [1, 2] = [4, 5] := by decide
+
+/-! ## T5 — share codec and RS1024 -/
+
+/-- `share_from_mnemonic (mnemonic_from_share s) = s` at word-index level, for every valid share: all field
+    values, all value lengths (even, ≥ 16 bytes), leading zero bytes, either flag -/
+theorem slip39_share_codec_roundtrip (s : ByteShare) (hv : shareValid s = true) :
+    ∃ idx, shareIndexes s = some idx ∧ shareFromIndexes idx = .ok s :=
+  codec_roundtrip (fun idx ext _ => rsVerify_rsChecksum_any idx ext) s hv
+
+/-- the padding rule never refuses a valid length: for an even byte count the padding is at most 8 bits -/
+theorem slip39_padding_le_eight (n : Nat) (hn : n % 2 = 0) : ((8 * n + 9) / 10 * 10) % 16 ≤ 8 :=
+  padding_le_eight n hn
+
+/-- the checksum `_rs1024_checksum` appends always verifies, for both customization strings -/
+theorem rs1024_checksum_verifies (idx : List Nat) (ext : Bool) : rsVerify (idx ++ rsChecksum idx ext) ext = true :=
+  rsVerify_rsChecksum_any idx ext
+
+/-- ANY single-word substitution, at any position of a sentence of any length, is detected — for both
+    customization strings -/
+theorem rs1024_detects_single_substitution (p q : List Nat) (a b : Nat) (ha : a < 1024) (hb : b < 1024)
+    (hab : a ≠ b) (ext : Bool) (h : rsVerify (p ++ a :: q) ext = true) : rsVerify (p ++ b :: q) ext = false :=
+  rsVerify_single_substitution p q a b ha hb hab ext h
+
+/-- a sentence valid as "extendable" is invalid as "non-extendable" and conversely: the two are different codes -/
+theorem rs1024_customization_separates (idx : List Nat) (ext : Bool) (h : rsVerify idx ext = true) :
+    rsVerify idx (!ext) = false :=
+  rsVerify_customization_separates idx ext h
+
+/-! ## T1 — BIP39 / Electrum at word-index level -/
+
+/-- entropy → index list → entropy, for word lists of `2^k` words, leading zeros preserved (BIP39: k = 11,
+    SLIP39: k = 10) -/
+theorem indexes_roundtrip (k : Nat) (hk : 1 ≤ k) (bits : Bits) (m : Nat) (hm : 1 ≤ m) (hl : bits.length = k * m) :
+    bitsFromIndexes (indexesFromBits bits (2 ^ k)) (2 ^ k) = some bits :=
+  bitsFromIndexes_indexesFromBits k hk bits m hm hl
+
+/-- index list → entropy → index list -/
+theorem bits_roundtrip (k : Nat) (hk : 1 ≤ k) (idx : List Nat) (hne : idx ≠ []) (hlt : ∀ i ∈ idx, i < 2 ^ k) :
+    ∃ bits, bitsFromIndexes idx (2 ^ k) = some bits ∧ bits.length = k * idx.length ∧
+      indexesFromBits bits (2 ^ k) = idx :=
+  indexesFromBits_bitsFromIndexes k hk idx hne hlt
+
+/-- BIP39: for every entropy of 128..256 bits in steps of 32 (leading zeros included) the sentence has
+    ENT/32·3 words, all below 2048, and decodes back to the entropy — for any 32-byte hash -/
+theorem bip39_roundtrip (H : Bytes → Bytes) (hH : ∀ b, (H b).length = 32) (e : Bits)
+    (hL : e.length ∈ [128, 160, 192, 224, 256]) :
+    ∃ idx, bip39Indexes H e = some idx ∧ idx.length = e.length / 32 * 3 ∧ (∀ i ∈ idx, i < 2048) ∧
+      bip39Entropy H idx = some e :=
+  Btc.C13.bip39_roundtrip H hH e hL
+
+/-- BIP39: a sentence of 12..24 words is accepted exactly when it is the encoding of its first ENT bits, i.e. when
+    its last ENT/32 bits equal the hash prefix -/
+theorem bip39_accepted_iff_encoding (H : Bytes → Bytes) (hH : ∀ b, (H b).length = 32) (idx : List Nat)
+    (hn : idx.length ∈ [12, 15, 18, 21, 24]) (hlt : ∀ i ∈ idx, i < 2048) (e : Bits) :
+    bip39Entropy H idx = some e ↔ bip39Indexes H e = some idx ∧ e.length = idx.length / 3 * 32 :=
+  bip39Entropy_eq_some_iff H hH idx hn hlt e
+
+/-- Electrum: the self-check of `_search_mnemonic` (`candidate == int(entropy_from(mnemonic_of(candidate)))`) holds
+    for every candidate and every word-list length ≥ 2 (2048, and the 1626 of Electrum's Portuguese) -/
+theorem electrum_selfcheck (base v : Nat) (hb : 2 ≤ base) :
+    ∃ bits, electrumBits (electrumIndexes v base) base = some bits ∧ ofBits bits = v :=
+  electrum_roundtrip base v hb
+
+/-- Electrum's version rule: an old-style seed is "old" whatever its HMAC says; otherwise the first matching
+    prefix in `_MNEMONIC_VERSIONS` order wins, "2fa" counting only at 12 words or at least 20 -/
+theorem electrum_version_rule (digits rest : List Nat) (n : Nat) :
+    mnemonicType true digits n = "old" ∧
+    mnemonicType false (0 :: 1 :: rest) n = "standard" ∧
+    mnemonicType false (1 :: 0 :: 0 :: rest) n = "segwit" ∧
+    ((n = 12 ∨ 20 ≤ n) → mnemonicType false (1 :: 0 :: 1 :: rest) n = "2fa") ∧
+    (¬ (n = 12 ∨ 20 ≤ n) → mnemonicType false (1 :: 0 :: 1 :: rest) n = "") ∧
+    mnemonicType false (1 :: 0 :: 2 :: rest) n = "2fa_segwit" := by
+  refine ⟨rfl, ?_, ?_, ?_, ?_, ?_⟩
+  · simp [mnemonicType, Gen.Mnemonic.MNEMONIC_VERSIONS, versionLoop, List.isPrefixOf]
+  · simp [mnemonicType, Gen.Mnemonic.MNEMONIC_VERSIONS, versionLoop, List.isPrefixOf]
+  · intro h
+    simp only [mnemonicType, Gen.Mnemonic.MNEMONIC_VERSIONS, versionLoop, List.isPrefixOf,
+      Gen.Mnemonic.TWOFA_EXACT, Gen.Mnemonic.TWOFA_MIN]
+    simp
+    omega
+  · intro h
+    simp only [mnemonicType, Gen.Mnemonic.MNEMONIC_VERSIONS, versionLoop, List.isPrefixOf,
+      Gen.Mnemonic.TWOFA_EXACT, Gen.Mnemonic.TWOFA_MIN]
+    simp
+    omega
+  · simp [mnemonicType, Gen.Mnemonic.MNEMONIC_VERSIONS, versionLoop, List.isPrefixOf]
+
+/-- BIP85: the entropy of a derived key is HMAC-SHA512 keyed with the ASCII of "bip-entropy-from-k" -/
+theorem bip85_is_hmac (hm : Bytes → Bytes → Bytes) (key : Bytes) :
+    bip85Entropy hm key = hm ("bip-entropy-from-k".toList.map fun c => UInt8.ofNat c.toNat) key := by
+  unfold bip85Entropy
+  congr 1
+
+/-! ## T6 — end to end (partial)
+
+Full statement (not proved as one theorem): for every configuration (1..16 groups, thresholds), every selection
+meeting exactly the thresholds, in any order, `master_secret_from_mnemonics (select (mnemonics_from_master_secret ms))
+= ms`, and every other selection is refused.  Proved here: ONE level (encrypt, split, select any threshold subset in
+any order, recover, decrypt) over btclib's arithmetic and any round function / digest; the word codec is T5, the
+refusals are `slip39_group_wrong_count_refused` / `slip39_group_count_refused`.  The composition of the two levels
+inside `_grouped` (dictionary grouping) is tied by correspondence (`slip39.master` stream) and by the `slip39.set`
+oracle on all selections of small configurations. -/
+theorem slip39_one_level_end_to_end_partial (F : Nat → Bytes → Bytes) (hF : ∀ i r, (F i r).length = r.length)
+    (hm : Bytes → Bytes → Bytes) (ms : Bytes) (hms : ms.length % 2 = 0) {t n : Nat} (h2 : 2 ≤ t)
+    (rnd : List (List GF256)) (rp : List GF256) (hlen : rnd.length = t - 2)
+    (hr : ∀ r ∈ rnd, r.length = ms.length) (hrp : rp.length + Gen.Slip39.DIGEST_BYTES = ms.length)
+    (hhm : ∀ k m, Gen.Slip39.DIGEST_BYTES ≤ (hm k m).length) :
+    ∃ ems, feistel F ms false = some ems ∧
+      ∀ shares, splitSecret gf256Ops t n (ems.map GF256.ofByte) rnd
+          (digestGF hm rp (ems.map GF256.ofByte) ++ rp) = .ok shares →
+        ∀ sel : List Nat, sel.Nodup → sel.length = t → (∀ i ∈ sel, i < n) →
+          ∃ r, recoverSecret gf256Ops (digestGF hm) t (sel.map fun i => (gf256Ops.x i, shares.getD i [])) = .ok r ∧
+            feistel F (r.map GF256.toByte) true = some ms := by
+  obtain ⟨ems, he, hl, hd⟩ := Btc.C13.feistel_decrypt_encrypt F hF ms hms
+  refine ⟨ems, he, ?_⟩
+  intro shares hs sel hnd hsl hsn
+  have hdl : (digestGF hm rp (ems.map GF256.ofByte)).length = Gen.Slip39.DIGEST_BYTES := by
+    simp only [digestGF, digestWith, List.length_map, List.length_take]
+    exact Nat.min_eq_left (hhm _ _)
+  refine ⟨ems.map GF256.ofByte, ?_, ?_⟩
+  · exact recoverSecret_splitSecret gf256Ops_lawful (digestGF hm) h2 gf256Ops_xinj hlen
+      (by intro r hr'; simp [hr r hr', hl]) (by simp [hdl, hl]; omega) rfl hdl hs sel hnd hsl hsn
+  · have : (ems.map GF256.ofByte).map GF256.toByte = ems := by
+      rw [List.map_map]
+      conv => rhs; rw [← List.map_id ems]
+      apply List.map_congr_left
+      intro b _
+      simp [GF256.toByte, GF256.ofByte]
+    rw [this]; exact hd
 
 end Props.C13
